@@ -118,7 +118,7 @@ def run (args : List Sexp) : Option String := do
     let tbl ← (← section? "f64" f64).mapM f64EntryOfSexp
     -- the regex crate's answers, keyed by (source text, mode)
     let answers : List ((Text × RegexMode) × PatRes) := (pats.zip res).map (fun pr => ((pr.1.regex, pr.1.mode), pr.2))
-    let o : Oracles := { parseF64 := fun t => (tbl.lookup t).join }
+    let o : Oracles := Oracles.withFacts tbl
     let lo : LineOracle :=
       { line := line,
         captures := fun re => match answers.lookup (re, RegexMode.captures) with | some (PatRes.cap gs) => some gs | _ => none,
